@@ -45,10 +45,24 @@ typedef struct
     /** Offset into ecounter where the previous request left off */
     unsigned offset;
 
+    /** Number of blocks to advance the lane counters by before the next batch */
+    unsigned pending;
+
     /** Base pointer for unaligned memory allocation */
     void *base_ptr;
 
 } MantisCTRVec128Ctx_t;
+
+/* Discard the buffered keystream after a key or tweak change.  The next batch
+   starts at the first counter block that has not been used yet, which is what
+   the generic back end does, so all back ends produce the same stream */
+STATIC_INLINE void mantis_ctr_vec128_reset(MantisCTRVec128Ctx_t *ctx)
+{
+    if (ctx->offset < MANTIS_CTR_BLOCK_SIZE) {
+        ctx->pending = (ctx->offset + MANTIS_BLOCK_SIZE - 1) / MANTIS_BLOCK_SIZE;
+        ctx->offset = MANTIS_CTR_BLOCK_SIZE;
+    }
+}
 
 static int mantis_ctr_vec128_set_counter
     (MantisCTR_t *ctr, const void *counter, unsigned size);
@@ -95,7 +109,7 @@ static int mantis_ctr_vec128_set_key
         return 0;
 
     /* Reset the keystream */
-    ctx->offset = MANTIS_CTR_BLOCK_SIZE;
+    mantis_ctr_vec128_reset(ctx);
     return 1;
 }
 
@@ -114,7 +128,7 @@ static int mantis_ctr_vec128_set_tweak
         return 0;
 
     /* Reset the keystream */
-    ctx->offset = MANTIS_CTR_BLOCK_SIZE;
+    mantis_ctr_vec128_reset(ctx);
     return 1;
 }
 
@@ -160,6 +174,7 @@ static int mantis_ctr_vec128_set_counter
         memset(block, 0, MANTIS_BLOCK_SIZE);
     }
     ctx->offset = MANTIS_CTR_BLOCK_SIZE;
+    ctx->pending = 0;
 
     /* Load the counter block and convert into row vectors */
     ctx->counter[0] = skinny_to_vec8x16(READ_WORD16(block, 0));
@@ -526,15 +541,16 @@ static int mantis_ctr_vec128_encrypt
     while (size > 0) {
         if (ctx->offset >= MANTIS_CTR_BLOCK_SIZE) {
             /* We need a new keystream block */
+            mantis_ctr_increment(ctx->counter, 0, ctx->pending);
+            mantis_ctr_increment(ctx->counter, 1, ctx->pending);
+            mantis_ctr_increment(ctx->counter, 2, ctx->pending);
+            mantis_ctr_increment(ctx->counter, 3, ctx->pending);
+            mantis_ctr_increment(ctx->counter, 4, ctx->pending);
+            mantis_ctr_increment(ctx->counter, 5, ctx->pending);
+            mantis_ctr_increment(ctx->counter, 6, ctx->pending);
+            mantis_ctr_increment(ctx->counter, 7, ctx->pending);
             mantis_ecb_encrypt_eight(ctx->ecounter, ctx->counter, &(ctx->ks));
-            mantis_ctr_increment(ctx->counter, 0, 8);
-            mantis_ctr_increment(ctx->counter, 1, 8);
-            mantis_ctr_increment(ctx->counter, 2, 8);
-            mantis_ctr_increment(ctx->counter, 3, 8);
-            mantis_ctr_increment(ctx->counter, 4, 8);
-            mantis_ctr_increment(ctx->counter, 5, 8);
-            mantis_ctr_increment(ctx->counter, 6, 8);
-            mantis_ctr_increment(ctx->counter, 7, 8);
+            ctx->pending = 8;
 
             /* XOR an entire keystream block in one go if possible */
             if (size >= MANTIS_CTR_BLOCK_SIZE) {
